@@ -189,7 +189,9 @@ def castling_records(f):
                 elif ev[0] == "call":
                     if ev[2] == successor.CLONE and ev[5] is not None and erase(ev[3][0]) == ("arg", bp):
                         rec = {"guards": list(guards), "calls": [], "writes": {}, "loc": ev[1]}
-                        open_[ev[5]] = rec
+                        # the object may be handed on by plain moves (inlined constructor helper)
+                        for x in successor._move_chain(b, ev[5]):
+                            open_[x] = rec
                         recs.setdefault(ev[1][1], []).append(rec)
                     else:
                         a0 = ev[3][0] if ev[3] else None
